@@ -648,6 +648,8 @@ pub fn diag(fields: &[&str]) -> String
 		Ok((n, h)) => format!("ok:{}:{:016x}", n, h),
 		Err(e) => format!("FAIL[{}]", e.replace(' ', "_")),
 	};
+	// where the rendered report says the diagnostic is: the `file:line:column` of its first header (plain ASCII rendering)
+	let headers: Vec<String> = all.iter().map(|e| rendered_position(e, &units)).collect();
 	let irhash = match &o.linked_ir
 	{
 		Some(ir) =>
@@ -661,13 +663,52 @@ pub fn diag(fields: &[&str]) -> String
 		None => "-".to_string(),
 	};
 	format!(
-		"verdict={} stage={} render={} irhash={} diags={}",
+		"verdict={} stage={} render={} irhash={} hdrs={} diags={}",
 		if o.verdict == "internal" { format!("internal[{}]", o.internal.replace(' ', "_")) } else { o.verdict.clone() },
 		o.stage,
 		render,
 		irhash,
+		headers.join(","),
 		items.join(",")
 	)
+}
+
+/// `line:column` from the first `-[ file:line:column ]` of the diagnostic rendered without colour in ASCII; `-` if there is none
+fn rendered_position(error: &penne::alpha::Error, units: &[(String, String)]) -> String
+{
+	let ariadne_config = ariadne::Config::default()
+		.with_index_type(ariadne::IndexType::Char)
+		.with_color(false)
+		.with_char_set(ariadne::CharSet::Ascii);
+	let config = penne::alpha::error::Config::from(ariadne_config).with_color(false);
+	let sources: Vec<(String, String)> =
+		units.iter().map(|(n, s)| (n.clone(), if s.is_empty() { " ".to_string() } else { s.clone() })).collect();
+	let r = std::panic::catch_unwind(std::panic::AssertUnwindSafe(|| {
+		let mut cache = ariadne::sources(sources);
+		let report = error.build_report(config);
+		let mut buffer: Vec<u8> = Vec::new();
+		report.write(&mut cache, &mut buffer).map(|_| buffer)
+	}));
+	let text = match r
+	{
+		Ok(Ok(buffer)) => String::from_utf8_lossy(&buffer).to_string(),
+		_ => return "-".to_string(),
+	};
+	for line in text.lines()
+	{
+		if let Some(at) = line.find("-[ ")
+		{
+			let rest = &line[at + 3..];
+			let rest = rest.strip_suffix(" ]").unwrap_or(rest);
+			let parts: Vec<&str> = rest.rsplitn(3, ':').collect();
+			if parts.len() == 3 && parts[0].parse::<usize>().is_ok() && parts[1].parse::<usize>().is_ok()
+			{
+				return format!("{}:{}", parts[1], parts[0]);
+			}
+			return "-".to_string();
+		}
+	}
+	"-".to_string()
 }
 pub fn resolved(_fields: &[&str]) -> String
 {
